@@ -1,6 +1,7 @@
 #!/usr/bin/env python3
 import json, glob, os
 rows=[]
+plan=json.load(open('/verif/seeded/plan.json'))
 for d in sorted(glob.glob('/verif/seeded/C*-*m[0-9]')):
     mp=d+'/meta.json'
     if not os.path.exists(mp): continue
@@ -14,7 +15,9 @@ for d in sorted(glob.glob('/verif/seeded/C*-*m[0-9]')):
             cells.append(f"{c}: silent")
     summ=(m.get('summary') or '').replace('|','/').replace('\n',' ')
     if len(summ)>230: summ=summ[:227]+'...'
-    rows.append(f"| {m['id']} | {summ} | {'; '.join(cells)} |")
-out="| seeded change | what was changed | quick checks at VERIF_SEED=1 |\n|---|---|---|\n"+"\n".join(rows)+"\n"
+    note=plan.get(m['id'],{}).get('note') or m.get('note') or ''
+    note=note.replace('|','/').replace('\n',' ')
+    rows.append(f"| {m['id']} | {summ} | {'; '.join(cells)} | {note} |")
+out="| seeded change | what was changed | quick checks at VERIF_SEED=1 | note |\n|---|---|---|---|\n"+"\n".join(rows)+"\n"
 open('/verif/seeded/TABLE.md','w').write(out)
 print(len(rows),'rows')
